@@ -55,9 +55,10 @@ func TestVerif_C04_Lifecycle(t *testing.T) {
 		dt := rapid.SampledFrom(c04Durations).Draw(rt, "disconnectedTimeout")
 		ft := rapid.SampledFrom(c04Durations).Draw(rt, "failedTimeout")
 		keepalive := rapid.SampledFrom([]time.Duration{0, 2 * time.Second}).Draw(rt, "keepalive")
+		viaConfig := rapid.IntRange(0, 2).Draw(rt, "viaAgentConfig") == 0
 		cfg := simAgentConfig{
 			controlling: controlling, lite: lite, maxBinding: 7, disconnected: dt, failed: ft, keepalive: keepalive,
-			explicitTimeout: explicit,
+			explicitTimeout: explicit, viaConfig: viaConfig,
 		}
 		locals := []duoSockSpec{{Kind: simKindHost}, {Kind: simKindHost}}
 		eps := []soloEpSpec{{Typ: CandidateTypeHost}, {Typ: CandidateTypeHost}}
@@ -149,7 +150,7 @@ func TestVerif_C04_Lifecycle(t *testing.T) {
 		}
 		for i := 0; i < nOps; i++ {
 			s.w.step = i + 1
-			op := rapid.SampledFrom([]string{"tick", "tick", "tick", "tick", "connect", "connect", "traffic", "silence", "silence", "silence", "restart", "close", "answerAll"}).Draw(rt, "op")
+			op := rapid.SampledFrom([]string{"tick", "tick", "tick", "tick", "connect", "connect", "traffic", "data", "data", "silence", "silence", "silence", "restart", "close", "answerAll"}).Draw(rt, "op")
 			if op == "close" && rapid.IntRange(0, 7).Draw(rt, "reallyClose") != 5 {
 				op = "tick"
 			}
@@ -219,6 +220,24 @@ func TestVerif_C04_Lifecycle(t *testing.T) {
 				s.peerRequest(ep, to, false, nil, 100, peerRole, 77)
 				lastRecv = time.Now()
 				s.ops = append(s.ops, "traffic")
+			case "data":
+				sp := s.ag.selectedPair()
+				if sp == nil || closed {
+					break
+				}
+				to := s.ag.sockByLocal(sp.Local)
+				ep := s.epByAddr(sp.Remote.addrPort())
+				if to == nil || ep == nil {
+					break
+				}
+				// application data from the selected remote is not silence either
+				n := rapid.IntRange(1, 3).Draw(rt, "packets")
+				for k := 0; k < n; k++ {
+					s.inject(ep, to, []byte{0x80, 0x60, byte(k), 1, 2, 3, 4, 5, 6, 7, 8, 9})
+				}
+				lastRecv = time.Now()
+				lbl["data-refreshes-liveness"] = true
+				s.ops = append(s.ops, fmt.Sprintf("data×%d", n))
 			case "answerAll":
 				for _, d := range s.agentRequests() {
 					s.removeInflight(d)
